@@ -321,6 +321,56 @@ fn handle_run(req: &Request, resp: &mut Response) -> bool {
                     let f = compiler::compile(&mut vm, text.to_string(), None).map_err(|e| format!("{:?}", e.messages()))?;
                     kept_functions.push(f);
                     Ok(())
+                } else if let Some(text) = rest.strip_prefix("define_native_in:") {
+                    // "module:name": the host defines a native function in a module of its choosing
+                    let (module, name) = text.split_once(':').ok_or("module:name expected")?;
+                    vm.define_native(module, name, host_ok);
+                    Ok(())
+                } else if let Some(text) = rest.strip_prefix("set_global_in:") {
+                    // "module:name:kind": the host makes an object through the public constructors, holds its
+                    // root while it stores the value as a global of a module of its choosing, then lets go
+                    let mut it = text.splitn(3, ':');
+                    let (module, name, kind) = (it.next().ok_or("module")?, it.next().ok_or("name")?, it.next().ok_or("kind")?);
+                    match kind {
+                        "string" => {
+                            let v = vm.new_gc_obj_string("made by the host");
+                            vm.set_global(module, name, Value::ObjString(v));
+                        }
+                        "vec" => {
+                            let r = vm.new_root_obj_vec();
+                            let e = vm.new_gc_obj_string("element made by the host");
+                            r.borrow_mut().elements.push(Value::ObjString(e));
+                            r.borrow_mut().elements.push(Value::Number(7.0));
+                            vm.set_global(module, name, Value::ObjVec(r.as_gc()));
+                        }
+                        "tuple" => {
+                            let e = vm.new_gc_obj_string("element made by the host");
+                            let r = vm.new_root_obj_tuple(vec![Value::ObjString(e), Value::Number(7.0)]);
+                            vm.set_global(module, name, Value::ObjTuple(r.as_gc()));
+                        }
+                        "range" => {
+                            let r = vm.new_root_obj_range(3, 9);
+                            vm.set_global(module, name, Value::ObjRange(r.as_gc()));
+                        }
+                        "hash_map" => {
+                            let r = vm.new_root_obj_hash_map();
+                            let k = vm.new_gc_obj_string("key made by the host");
+                            r.borrow_mut().elements.insert(Value::ObjString(k), Value::Number(7.0));
+                            vm.set_global(module, name, Value::ObjHashMap(r.as_gc()));
+                        }
+                        "error" => {
+                            let m = vm.new_gc_obj_string("message made by the host");
+                            let r = vm.new_root_obj_err(Value::ObjString(m));
+                            vm.set_global(module, name, Value::ObjInstance(r.as_gc()));
+                        }
+                        "stop_iter" => {
+                            let r = vm.new_root_obj_stop_iter();
+                            vm.set_global(module, name, Value::ObjInstance(r.as_gc()));
+                        }
+                        "number" => vm.set_global(module, name, Value::Number(7.0)),
+                        other => return Err(format!("unknown kind {}", other)),
+                    }
+                    Ok(())
                 } else if let Some(text) = rest.strip_prefix("compile_keep_in:") {
                     // "module:source": compile a program for a module name of the host's choosing and keep it
                     let (module, text) = text.split_once(':').ok_or("module:source expected")?;
